@@ -295,7 +295,7 @@ func init() {
 			"Entry sequences: exhaustive singles x arenas x allow-lists, exhaustive pairs (quick) and triples (thorough) over a 46-entry alphabet covering every name/target shape x type, PRNG sequences <=8, link-focused sequences, and streams replayed with a reader failing / ending at every byte offset. " +
 			"non-trivial = the stream got past the gzip/tar header (an entry was materialised or refused); distinct = entry list x dst x allow-list x fault",
 		Assumptions: []string{"the worker is root inside a chroot, so every absolute path lands in the observed world", "a pre-populated dst contains no symlinks (caller's precondition)", "atime is not compared (the monitor's own reads change it)"},
-		Phases:      hostilePhases("C01"),
+		Phases:      append(hostilePhases("C01"), nativeFuzzPhase("native-fuzz-unpack-containment", "FuzzUnpack", "contain", 80000)),
 	})
 	fw.Register(&fw.Property{
 		ID:    "C04",
